@@ -4,6 +4,7 @@ package main
 
 import (
 	"fmt"
+	"go/token"
 	"go/types"
 	"regexp"
 	"sort"
@@ -178,8 +179,87 @@ func (c *c10ctx) permits(fn *ssa.Function) permits {
 			}
 		}
 	}
-	// a local bool may alias the force test through φ of the short-circuit form
-	pm.force = boolEdges(fn, forward(force, fwdOpts{noBinOp: true}), true)
+	// A force permit is a test of the force flag itself: the bool parameter, a load of
+	// Refspec.Force, or the short-circuit φ of exactly those (forced := force || r.Force).
+	// A value that carries a force flag over from a previous loop iteration
+	// (force = force || r.Force) is not this refspec's flag.
+	direct := map[ssa.Value]bool{}
+	for _, v := range force {
+		direct[v] = true
+	}
+	memo := map[ssa.Value]int{}
+	var isForce func(v ssa.Value, depth int) bool
+	isForce = func(v ssa.Value, depth int) bool {
+		if direct[v] {
+			return true
+		}
+		if depth > 6 {
+			return false
+		}
+		switch memo[v] {
+		case 1:
+			return true
+		case 2, 3:
+			return false
+		}
+		memo[v] = 3
+		ok := false
+		if ph, isPhi := v.(*ssa.Phi); isPhi {
+			ok = true
+			nonConst := 0
+			for k, e := range ph.Edges {
+				if cst, isC := e.(*ssa.Const); isC {
+					if cst.Value != nil && cst.Value.String() == "true" {
+						// the constant-true edge must be taken on the true edge of a force test
+						pred := ph.Block().Preds[k]
+						okEdge := false
+						if len(pred.Instrs) > 0 {
+							if ifi, isIf := pred.Instrs[len(pred.Instrs)-1].(*ssa.If); isIf && pred.Succs[0] == ph.Block() && isForce(ifi.Cond, depth+1) {
+								okEdge = true
+							}
+						}
+						if !okEdge {
+							ok = false
+						}
+					}
+					continue
+				}
+				nonConst++
+				if !isForce(e, depth+1) {
+					ok = false
+				}
+			}
+			if nonConst == 0 {
+				ok = false
+			}
+		}
+		if ok {
+			memo[v] = 1
+		} else {
+			memo[v] = 2
+		}
+		return ok
+	}
+	fset := map[ssa.Value]bool{}
+	for _, b := range fn.Blocks {
+		if len(b.Instrs) == 0 {
+			continue
+		}
+		if ifi, ok := b.Instrs[len(b.Instrs)-1].(*ssa.If); ok {
+			cond := ifi.Cond
+			for {
+				if u, ok := cond.(*ssa.UnOp); ok && u.Op == token.NOT {
+					cond = u.X
+					continue
+				}
+				break
+			}
+			if isForce(cond, 0) {
+				fset[cond] = true
+			}
+		}
+	}
+	pm.force = boolEdges(fn, fset, true)
 	// new ref: old value == nil
 	oldSet := forward(old, fwdOpts{noBinOp: true})
 	pm.newRef = append(pm.newRef, nilEdges(fn, oldSet)...)
@@ -397,4 +477,143 @@ func sortedKeys(m map[string]bool) []string {
 	}
 	sort.Strings(o)
 	return o
+}
+
+func init() {
+	register(&Rule{
+		ID: "C10-f", Template: "origin + permit-cut (fast-forward target)",
+		Doc: "A fast-forward merge moves the branch exactly to the one input that is not the merge base: in every function of cmd/wrgl that computes a merge base (ref.SeekCommonAncestor) and writes a ref directly, the written sum is an element of a list filled only under the 'differs from the base' edge of bytes.Equal(x, base), and the write is reachable only through the `len(list) == 1` edge.",
+		Min: 1,
+		Run: func(p *Program, r *RuleResult) error {
+			c, err := newC10(p)
+			if err != nil {
+				return err
+			}
+			sca, err := p.MustFuncs("pkg/ref.SeekCommonAncestor")
+			if err != nil {
+				return err
+			}
+			fns := p.FuncsInPkg("cmd/wrgl")
+			r.Analysed = len(fns)
+			for _, fn := range fns {
+				var baseSeeds []ssa.Value
+				for _, ci := range callsTo(fn, sca) {
+					if call, ok := ci.(*ssa.Call); ok {
+						for _, ref := range *call.Referrers() {
+							if ex, ok := ref.(*ssa.Extract); ok && ex.Index == 0 {
+								baseSeeds = append(baseSeeds, ex)
+							}
+						}
+					}
+				}
+				if len(baseSeeds) == 0 {
+					continue
+				}
+				base := forward(baseSeeds, fwdOpts{noBinOp: true})
+				// not-equal-to-base edges
+				var eqCalls []ssa.Value
+				eachCall(fn, func(ci ssa.CallInstruction) {
+					f := calleeFunc(ci)
+					if f == nil || f.Pkg() == nil || f.Pkg().Path() != "bytes" || f.Name() != "Equal" {
+						return
+					}
+					a := ci.Common().Args
+					if len(a) == 2 && (base[a[0]] || base[a[1]]) {
+						if v, ok := ci.(*ssa.Call); ok {
+							eqCalls = append(eqCalls, v)
+						}
+					}
+				})
+				neqCut := mkCut(boolEdges(fn, forward(eqCalls, fwdOpts{noBinOp: true}), false))
+				// appends that only happen on a not-equal edge
+				var filteredSeeds []ssa.Value
+				for _, b := range fn.Blocks {
+					for _, in := range b.Instrs {
+						call, ok := in.(*ssa.Call)
+						if !ok {
+							continue
+						}
+						if bi, ok := call.Call.Value.(*ssa.Builtin); !ok || bi.Name() != "append" {
+							continue
+						}
+						if len(neqCut) == 0 {
+							continue
+						}
+						if _, reach := reachAfter(fn, nil, call, neqCut, nil); !reach {
+							filteredSeeds = append(filteredSeeds, call)
+						}
+					}
+				}
+				filtered := forward(filteredSeeds, fwdOpts{noBinOp: true})
+				// a φ that also merges an unfiltered slice is not a filtered list
+				for v := range filtered {
+					if ph, ok := v.(*ssa.Phi); ok {
+						for _, e := range ph.Edges {
+							if !filtered[e] {
+								if mk, isMk := e.(*ssa.MakeSlice); isMk {
+									_ = mk // the empty initial list
+									continue
+								}
+								if sl, isSl := e.(*ssa.Slice); isSl {
+									if _, isAlloc := sl.X.(*ssa.Alloc); isAlloc {
+										continue // empty composite literal [][]byte{}
+									}
+								}
+								delete(filtered, v)
+							}
+						}
+					}
+				}
+				// len(list) == 1 edges
+				var oneEdges []edge
+				for _, b := range fn.Blocks {
+					if len(b.Instrs) == 0 {
+						continue
+					}
+					ifi, ok := b.Instrs[len(b.Instrs)-1].(*ssa.If)
+					if !ok {
+						continue
+					}
+					bo, ok := ifi.Cond.(*ssa.BinOp)
+					if !ok || bo.Op != token.EQL {
+						continue
+					}
+					for _, pair := range [][2]ssa.Value{{bo.X, bo.Y}, {bo.Y, bo.X}} {
+						if x, isLen := lenOperand(pair[0]); isLen && filtered[x] {
+							if k, isC := constInt(pair[1]); isC && k == 1 {
+								oneEdges = append(oneEdges, edge{b, 0})
+							}
+						}
+					}
+				}
+				for _, s := range c.sites(fn) {
+					ci, ok := s.in.(ssa.CallInstruction)
+					if !ok {
+						continue
+					}
+					what := "fast-forward writes exactly the one input that differs from the merge base"
+					key := s.key + "|ff-target"
+					okOrigin := false
+					for _, ai := range c.rw.sumArgs(ci) {
+						arg := ci.Common().Args[ai]
+						for x := range backward(arg, nil) {
+							if ia, isIA := x.(*ssa.IndexAddr); isIA && filtered[ia.X] {
+								okOrigin = true
+							}
+						}
+					}
+					if !okOrigin {
+						r.bad(key, p.Rel(ci.Pos()), what, "the written sum is not an element of the list of inputs that differ from the merge base")
+						continue
+					}
+					if path, reach := reachAfter(fn, nil, ci, mkCut(oneEdges), nil); reach {
+						r.bad(key, p.Rel(ci.Pos()), what, fmtPath("the ref write is reachable without the `len(non-base inputs) == 1` edge", path))
+						continue
+					}
+					r.ok(key, p.Rel(ci.Pos()), what)
+				}
+			}
+			return nil
+		},
+	})
 }
